@@ -702,7 +702,9 @@ func vC14RunInBubble(t *testing.T, c *vh.Case, sc vC14Scn, target int) *vC14Res 
 	time.Sleep(2 * time.Minute)
 	synctest.Wait()
 	cB := vc14.Owned()
-	c.Check(len(cB) == 0, "no-goroutine-after-2min", "%sinstance-owned goroutines 2 virtual minutes after Close and the last operation (%s; closed at event #%d %q): %v\n%s", tag, sc, res.CloseIdx, res.CloseLabel, vc14.Summary(cB), vc14.Dump(cB, 4))
+	if !c.Check(len(cB) == 0, "no-goroutine-after-2min", "%sinstance-owned goroutines 2 virtual minutes after Close and the last operation (%s; closed at event #%d %q): %v\n%s", tag, sc, res.CloseIdx, res.CloseLabel, vc14.Summary(cB), vc14.Dump(cB, 4)) {
+		c.ExitNow() // leaked goroutines cannot be unwound: the bubble could not end and later cases would start dirty
+	}
 	c.Check(bus.Live() == 0, "no-subscription-left", "%s%d event-bus subscriptions still open", tag, bus.Live())
 	lateMu.Lock()
 	var lateProv, lateGC []string
@@ -791,8 +793,8 @@ func TestVerif_C14_ipfsdht(t *testing.T) {
 
 // ---- constructor failures ------------------------------------------------------------------------
 
-func TestVerif_C14_ctor(t *testing.T) {
-	vh.Run(t, vh.Spec{Prop: "C14", Unit: "ctor", Quick: 120, Thorough: 3000, CostMs: 8,
+func TestVerif_C14_ipfsdht_ctor(t *testing.T) {
+	vh.Run(t, vh.Spec{Prop: "C14", Unit: "ipfsdht_ctor", Quick: 120, Thorough: 3000, CostMs: 8,
 		Rule: "dht.New failing at an enumerated point (option error, Validate rejection, failing provider-manager option, invalid mode after both stores started their GC, failing EventBus Subscribe after the stream handlers were set) x mode x subsystems x auto-refresh x fix-low; oracle: error returned, instance-owned census and live bus subscriptions equal the (empty) baseline after the error; every case non-trivial when the failure point lies after the first goroutine start; distinct by (failure point, mode, subsystems)",
 		Clauses: []string{"ctor-returns-error", "ctor-fail-no-goroutine", "ctor-fail-no-subscription"}},
 		func(c *vh.Case) {
@@ -863,7 +865,9 @@ func TestVerif_C14_ctor(t *testing.T) {
 				time.Sleep(2 * time.Minute)
 				synctest.Wait()
 				cs = vc14.Owned()
-				c.Check(len(cs) == 0, "ctor-fail-no-goroutine", "failure point %q: goroutines 2 virtual minutes after the failed New: %v", pt, vc14.Summary(cs))
+				if !c.Check(len(cs) == 0, "ctor-fail-no-goroutine", "failure point %q: goroutines 2 virtual minutes after the failed New: %v", pt, vc14.Summary(cs)) {
+					c.ExitNow() // no handle to stop them: the bubble could not end
+				}
 				c.Obs("journal_entries", j.Len())
 				h.Close()
 				if pt == "invalid-mode" || pt == "subscribe" {
